@@ -82,8 +82,15 @@ def run_verus_unit(pid, unit, tier, evidence, problems):
     for f in r['failures']:
         prim = next((w for w in f['where'] if w['primary']), f['where'][0] if f['where'] else {})
         oblig = f"{unit}::{f['function']}: {f['message']}: {prim.get('text', '')}"
+        # contract-level obligation (postcondition, precondition of a call in the repository's text, overflow, bounds,
+        # reachable panic, termination) vs proof-internal obligation (loop invariant, inserted assert, precondition of an
+        # inserted lemma call): the latter means "the proof no longer goes through", which by itself is undecided
+        origin = prim.get('origin') or ()
+        from_vspec = bool(origin) and str(origin[0]).startswith('vspec')
+        msg = f['message']
+        internal = bool(re.search(r'invariant|assertion failed|assert', msg, re.I)) or (('precondition' in msg or 'requires' in msg) and from_vspec)
         problems['failed'].append({'unit': unit, 'backend': 'verus', 'obligation': oblig, 'function': f['function'],
-                                   'verifier_output': f['rendered'], 'origin': prim.get('origin')})
+                                   'verifier_output': f['rendered'], 'origin': prim.get('origin'), 'internal': internal})
 
 
 def run_kani_unit(pid, kspec, tier, evidence, problems):
@@ -258,6 +265,14 @@ def main():
         problems['failed'].append({'unit': 'search', 'backend': 'search', 'function': c['check'],
                                    'obligation': f"search::{c['check']}: executable contract fails on a concrete input ({c['failed']} of {c['cases']} cases)",
                                    'verifier_output': c['first_failure'], 'failing_input': c['first_failure'], 'check': c['check']})
+    # a failure of a proof-internal obligation alone is not a violation: it is one only together with a contract-level
+    # failure or a concrete failing input from the search; otherwise the verdict is undecided (proof needs maintenance)
+    hard = [p for p in problems['failed'] if not p.get('internal')]
+    if problems['failed'] and not hard:
+        for p in problems['failed']:
+            problems['undecided'].append(f"proof-internal obligation no longer holds and the bounded search finds no failing input: {p['obligation'][:300]}")
+        evidence['internal_only_failures'] = [p['obligation'] for p in problems['failed']]
+        problems['failed'] = []
     ev = finish(pid, tier, evidence, problems, t0, cfg.get('level', 'proof'))
     if problems['failed']:
         # group by unit+function so one broken function gives one line
